@@ -15,18 +15,37 @@
                               theorem below that mentions [cte_read], [next_tok] or [lex_str].
    [Denote.den], [Denote.no_padding]   the meaning of "an equivalent stream carrying the same data"
                               (Model/Denote.v), as for C01.
-   [tree], [wf], [events_of]  the fragment of the structure theorem (Proofs/CteReadProofs.v): null, booleans
-                              (OnBoolean and OnTrue / OnFalse), integers of every size and sign in all three
-                              scalar event forms, strings, resource ids and remote references with arbitrary
-                              Unicode content (OnArray and OnStringlikeArray), lists and maps nested to any
-                              depth, comments of both kinds between the items of a list and between the pairs
-                              of a map.
-   Not covered by a theorem (correspondence and search only): floats (strconv / math/big), times
-   (the model [date_text] / [time_text] mirrors the regular expressions of the listener and
-   compact_time's Validate / String), UIDs, typed arrays (also chunked strings), media, custom types,
-   records, edges, nodes, markers and references, comments at the top level and in value position of a map. *)
+   [tree], [wf], [doc_events]  the fragment of the structure theorem (Proofs/CteReadProofs.v).  A document is a list
+                              of record types followed by one top-level value.
+                              Atoms (one event, one token): null; booleans (OnBoolean and OnTrue / OnFalse);
+                              integers of every size and sign in the three scalar event forms; strings, resource
+                              ids and remote references with arbitrary Unicode content (OnArray and
+                              OnStringlikeArray); local references; media (whole, any media type the validator
+                              admits, any payload); custom binary and custom text (whole, type below 2^64);
+                              whole integer arrays of all eight element types in the decimal element format
+                              (the default), any length below 2^64, any element values; whole UID arrays (any
+                              number of 16-byte elements below 2^64; no configuration dependence); UID values; whole bit
+                              arrays (any number of bits below 2^64, unused bits of the last byte zero).
+                              Containers, nested to any depth: lists, maps, records (any identifier of the
+                              lexer's class -- the validator's identifiers are such, C03), edges (exactly three
+                              values), nodes (value + children); record types before the top-level value;
+                              markers on any value but a node; comments of both kinds between the items of any
+                              container and between the pairs of a map.
+                              Where a node may stand: item of a list / record / edge / node, map key, top-level
+                              value -- not map value, marked value or the value of a node, because there the
+                              encoder indents the node's value when Writer.Column happens to equal the node's
+                              origin (the mechanism behind finding comment-first-in-node); the text is still
+                              readable but is not the layout [pp_doc].
+   Not covered by a theorem (correspondence and search only): floats (strconv / math/big; no clean leaf
+   lemma: the decimal spelling of compact_float / apd and the hex spelling of strconv 'x' would each need a
+   printer model tied to the C24 spelling trees), time values as tokens (the longest-match
+   analysis over all candidate rules for a symbolic time text is missing; the time leaf lemmas below are
+   about the listener's conversion only), float arrays, bit arrays with non-zero unused bits, integer arrays in the non-default element
+   formats, chunked arrays, nodes in the three positions named above, comments at the top level, before the
+   value of a node and in value position of a map. *)
 From CE Require Import Model.CteRead Proofs.CteReadProofs.
-From CE Require Model.CteEnc Model.CteLit Model.Denote Model.Rules.
+From CE Require Model.CteEnc Model.CteLit Model.Denote Model.Rules Model.Convert Proofs.CteEncProofs.
+From CE Require Import Base.LE.
 Require Coq.Strings.String.
 Import String.StringSyntax.
 Delimit Scope string_scope with string.
@@ -129,6 +148,85 @@ Theorem C02_time_of_day_roundtrip :
 Proof. exact time_text_fixed. Qed.
 Print Assumptions C02_time_of_day_roundtrip.
 
+(* Identifiers (markers, references, record and record-type names): what the validator admits is an identifier
+   of the fragment -- non-empty, CHAR_IDENTIFIER code points, the UTF-8 of its code points (C03's theorem). *)
+Theorem C02_valid_identifiers_are_lexable :
+  forall id, Convert.ident_valid id = true -> ident_ok (runes id) /\ str_bytes (runes id) = id.
+Proof. exact ident_valid_ok. Qed.
+Print Assumptions C02_valid_identifiers_are_lexable.
+
+(* Media and custom binary payloads: the encoder's "hh hh hh" text followed by the closing bracket is read back
+   as exactly the bytes, for every payload. *)
+Theorem C02_hex_payload_roundtrip :
+  forall d rest, data_bytes d -> bytes_body (CteEnc.hexbytes d ++ 93 :: rest) = Some (d, rest).
+Proof. exact bytes_body_hex. Qed.
+Print Assumptions C02_hex_payload_roundtrip.
+
+(* Custom type numbers: the decimal text of every type below 2^64 is parsed back (parseSmallUint). *)
+Theorem C02_custom_type_roundtrip :
+  forall ct, ct < 2 ^ 64 -> CteLit.go_parse_uint (CteEnc.dec ct) 0 64 = Some ct.
+Proof. exact parse_custom_type. Qed.
+Print Assumptions C02_custom_type_roundtrip.
+
+(* Integer array elements, all eight element types: the text fmt writes for an element with bit pattern x in
+   the decimal format is accepted by the element lexer rule and parsed back to the little-endian bytes of x. *)
+Theorem C02_int_array_element_roundtrip :
+  forall sg w x, x < 2 ^ wbits w -> int_elem sg 0 (wbits w) (ielem sg w x) = Some (le_encode (wbytes w) x).
+Proof. exact int_elem_reads. Qed.
+Print Assumptions C02_int_array_element_roundtrip.
+
+(* A whole integer array: header, elements separated by one space, closing bracket -> one array token. *)
+Theorem C02_int_array_roundtrip :
+  forall sg w xs R, Forall (fun x => x < 2 ^ wbits w) xs ->
+  next_tok O (CteEnc.nk_name (ikind sg w) ++ 91 :: join32 (map (ielem sg w) xs) ++ 93 :: R) =
+  Some (TVal (EArray (ity sg w) (N.of_nat (length xs)) (idata w xs)), R, O).
+Proof. exact tok_intarr. Qed.
+Print Assumptions C02_int_array_roundtrip.
+
+(* One UID array element: the 8-4-4-4-12 hex text the encoder writes for 16 bytes matches the reader's UID
+   pattern in full and converts back to those bytes. *)
+Theorem C02_uid_array_element_roundtrip :
+  forall u, length u = 16%nat -> data_bytes u -> uid_elem (CteEnc.uid_text u) = Some u.
+Proof. exact uid_elem_reads. Qed.
+Print Assumptions C02_uid_array_element_roundtrip.
+
+(* A whole UID array -> one array token with the element count and the concatenated bytes. *)
+Theorem C02_uid_array_roundtrip :
+  forall us R, Forall (fun u => length u = 16%nat /\ data_bytes u) us ->
+  next_tok O (CteEnc.t_uidhdr ++ join32 (map CteEnc.uid_text us) ++ 93 :: R) =
+  Some (TVal (EArray AT_UID (N.of_nat (length us)) (concat us)), R, O).
+Proof. exact tok_uidarr. Qed.
+Print Assumptions C02_uid_array_roundtrip.
+
+(* A whole bit array: the bits are packed low bit first; writing the bits of the packed bytes and reading the
+   text gives one array token with the same count and bytes (the unused bits of the last byte are zero on both
+   sides: [pack_bits] is the reader's packing, and unpacking it gives the bits back). *)
+Theorem C02_bit_array_roundtrip :
+  forall l R,
+  next_tok O (CteEnc.t_bithdr ++ CteEncProofs.bits_text l ++ 93 :: R) =
+    Some (TVal (EArray AT_Bit (N.of_nat (length l)) (pack_bits (length l) l)), R, O) /\
+  firstn (length l) (CteEnc.bytes_bits (pack_bits (length l) l)) = l /\
+  length (pack_bits (length l) l) = ((length l + 7) / 8)%nat.
+Proof. exact (fun l R => conj (tok_bitarr l R) (pack_bits_rt (length l) l (Nat.le_refl _))). Qed.
+Print Assumptions C02_bit_array_roundtrip.
+
+(* A UID value: the 36 characters the encoder writes are one value token carrying the same 16 bytes, whatever
+   follows.  Of the thirteen candidate rules that can start with a hex digit (keywords, integers with and
+   without prefix, decimal and hex floats, dates, times) none matches as far as the UID rule does: each either
+   fails or stops at the latest before the second dash ("1234567e-1234-..." is a decimal float up to there). *)
+Theorem C02_uid_value_token :
+  forall u R, length u = 16%nat -> data_bytes u ->
+  next_tok O (CteEnc.uid_text u ++ R) = Some (TVal (EUid u), R, O).
+Proof. exact tok_uid. Qed.
+Print Assumptions C02_uid_value_token.
+
+(* Every atom of the fragment: its text followed by white space or the end is one value token carrying the event
+   [ard a], and the encoder model's event handler writes exactly that text between BeforeValue and AfterValue. *)
+Theorem C02_atom_token :
+  forall a R, awf a -> wsd R -> next_tok O (arunes a ++ R) = Some (TVal (ard a), R, O).
+Proof. exact atom_tok. Qed.
+Print Assumptions C02_atom_token.
+
 (* ---- 2. structure ---- *)
 
 (* The encoder model, from a fresh state and for every configuration, lays a document of the fragment
@@ -136,20 +234,21 @@ Print Assumptions C02_time_of_day_roundtrip.
    bracket on its own line unless the container is empty).  Proved by induction over the tree with the
    encoder's decorator stack, indentation and ContainerHasObjects flag as invariant. *)
 Theorem C02_encoder_layout :
-  forall c t, wf t -> is_value t = true ->
-    CteEnc.cte_encode c (document (events_of t)) = Some (pp_doc t).
+  forall c rts t, Forall wf_rt rts -> wf t -> is_value t = true -> doc_cfgok c rts t ->
+    CteEnc.cte_encode c (document (doc_events rts t)) = Some (pp_doc rts t).
 Proof. exact encode_pp_doc. Qed.
 Print Assumptions C02_encoder_layout.
 
 (* The reader on that layout: code points -> tokens (longest match, with what follows each token taken
    into account) -> parse -> events. *)
 Theorem C02_reader_on_layout :
-  forall t, wf t -> is_value t = true -> cte_read (pp_doc t) = Some (document (rd_events t)).
+  forall rts t, Forall wf_rt rts -> wf t -> is_value t = true ->
+    cte_read (pp_doc rts t) = Some (document (doc_rd rts t)).
 Proof. exact read_pp_doc. Qed.
 Print Assumptions C02_reader_on_layout.
 
 Theorem C02_same_data :
-  forall t, Denote.den (document (rd_events t)) = Denote.no_padding (Denote.den (document (events_of t))).
+  forall rts t, Denote.den (document (doc_rd rts t)) = Denote.no_padding (Denote.den (document (doc_events rts t))).
 Proof. exact same_data. Qed.
 Print Assumptions C02_same_data.
 
@@ -208,40 +307,93 @@ Theorem C02_refuted_float_array_nan : changed w_float_array_nan.
 Proof. exact w_float_array_nan_changed. Qed.
 Print Assumptions C02_refuted_float_array_nan.
 
-(* PARTIAL.  For every document of the fragment (see the header) and every encoder configuration: the
-   encoder model writes a text, the reader model reads it, and the result denotes the same data (there is
-   no padding in the fragment; comments keep their text).
+(* PARTIAL.  For every document of the fragment (see the header): the encoder model writes a text, the reader
+   model reads it, and the result denotes the same data (there is no padding in the fragment; comments keep
+   their text).  [doc_cfgok c rts t]: the configuration writes the integer arrays of the document in the
+   decimal element format -- true of the default configuration for every document, and of every
+   configuration for documents without integer arrays (the two corollaries below).
    Missing pieces, named: (a) the ANTLR lexer / parser is represented by [cte_read]; their agreement is
-   checked by correspondence only; (b) the events outside the fragment (floats depend on strconv and math/big,
-   times on regexp and compact_time; UIDs, arrays, media, custom types, records, edges, nodes, markers) are
-   covered by the correspondence and search stages only; (c) that the decoded stream is accepted by the
-   validator again is checked by the search oracle only; (d) the violation classes above are outside:
-   [wf] excludes the comment texts of the first three, and the fragment has no nodes, big floats, big
-   decimals or float arrays. *)
+   checked by correspondence only; (b) the events outside the fragment (see the header: floats, UID and time
+   values, UID / float / bit arrays, other element formats, chunked arrays, nodes in three positions, comments
+   in three positions) are covered by the correspondence and search stages only; (c) that the decoded stream is
+   accepted by the validator again is checked by the search oracle only; (d) the violation classes above are
+   outside: [wf] excludes the comment texts of the first three and a comment before the value of a node, and the
+   fragment has no big floats, big decimals or float arrays. *)
 Theorem C02_cte_roundtrip_partial :
-  forall c t, wf t -> is_value t = true ->
+  forall c rts t, Forall wf_rt rts -> wf t -> is_value t = true -> doc_cfgok c rts t ->
   exists text out,
-    CteEnc.cte_encode c (document (events_of t)) = Some text /\
+    CteEnc.cte_encode c (document (doc_events rts t)) = Some text /\
     cte_read text = Some out /\
-    Denote.den out = Denote.no_padding (Denote.den (document (events_of t))).
+    Denote.den out = Denote.no_padding (Denote.den (document (doc_events rts t))).
 Proof. exact cte_roundtrip_fragment. Qed.
 Print Assumptions C02_cte_roundtrip_partial.
 
+(* the default configuration, every document of the fragment *)
+Theorem C02_cte_roundtrip_default_partial :
+  forall rts t, Forall wf_rt rts -> wf t -> is_value t = true ->
+  exists text out,
+    CteEnc.cte_encode CteEnc.default_ccfg (document (doc_events rts t)) = Some text /\
+    cte_read text = Some out /\
+    Denote.den out = Denote.no_padding (Denote.den (document (doc_events rts t))).
+Proof. exact cte_roundtrip_default. Qed.
+Print Assumptions C02_cte_roundtrip_default_partial.
+
+(* every configuration, documents without integer arrays (this contains the fragment of the earlier version
+   of this theorem: a document without record types is [rts = []]) *)
+Theorem C02_cte_roundtrip_any_config_partial :
+  forall c rts t, Forall wf_rt rts -> wf t -> is_value t = true -> array_free rts t ->
+  exists text out,
+    CteEnc.cte_encode c (document (doc_events rts t)) = Some text /\
+    cte_read text = Some out /\
+    Denote.den out = Denote.no_padding (Denote.den (document (doc_events rts t))).
+Proof. exact cte_roundtrip_any_config. Qed.
+Print Assumptions C02_cte_roundtrip_any_config_partial.
+
 (* ---- non-vacuity ---- *)
 
-(* a map with a comment, a string key holding e-acute, a line feed, a quote, the euro sign and an emoji, a
-   list with null, two booleans (both event forms), a resource id, a remote reference, 2^64, -0, -5, a
-   multi-line comment, an empty list and an empty map, and an integer key: well-formed, a value, and
+(* one record type with two keys, and a list holding: a comment, a record of that type, a node whose children are
+   null and an edge (with a comment and a resource id inside), a marked list of two booleans (both event forms),
+   a reference to it, a media value, custom binary, custom text, an int16 array (1 -1 -32768 32767 0), a uint64
+   array (2^64-1), an empty int8 array, a UID array of two elements, an empty UID array, a bit array of ten bits, an empty bit array, a UID value, and a map with a string key holding e-acute, a line feed, a quote, the
+   euro sign and an emoji (value: a list with null, a remote reference, 2^64, -0, -5, an empty list, an empty
+   map), a multi-line comment, and an integer key with a marked empty string: well-formed, a value, and
    accepted by the validator model *)
 Example C02_example_hypotheses :
-  wf ex_tree /\ is_value ex_tree = true /\ Rules.accepts_document Rules.default_rcfg (document (events_of ex_tree)) = true.
-Proof. exact (conj (proj1 ex_tree_wf) (conj (proj2 ex_tree_wf) ex_tree_accepted)). Qed.
+  Forall wf_rt ex_rts /\ wf ex_tree /\ is_value ex_tree = true /\
+  Rules.accepts_document Rules.default_rcfg (document (doc_events ex_rts ex_tree)) = true.
+Proof. exact (conj (proj1 ex_tree_wf) (conj (proj1 (proj2 ex_tree_wf)) (conj (proj2 (proj2 ex_tree_wf)) ex_tree_accepted))). Qed.
 
 Example C02_example_text :
-  CteEnc.cte_encode CteEnc.default_ccfg (document (events_of ex_tree)) = Some (pp_doc ex_tree) /\
-  (60 < length (pp_doc ex_tree))%nat /\
-  cte_read (pp_doc ex_tree) = Some (document (rd_events ex_tree)).
+  CteEnc.cte_encode CteEnc.default_ccfg (document (doc_events ex_rts ex_tree)) = Some (pp_doc ex_rts ex_tree) /\
+  (400 < length (pp_doc ex_rts ex_tree))%nat /\
+  cte_read (pp_doc ex_rts ex_tree) = Some (document (doc_rd ex_rts ex_tree)).
 Proof. vm_compute. repeat split; lia. Qed.
+
+Example C02_example_int16_array :
+  abytes (AIntArr true W16 [1; 65535; 32768; 32767; 0]) = CteEnc.s2b "@i16[1 -1 -32768 32767 0]"%string /\
+  aevent (AIntArr true W16 [1; 65535; 32768; 32767; 0]) = EArray AT_Int16 5 [1; 0; 255; 255; 0; 128; 255; 127; 0; 0].
+Proof. vm_compute. split; reflexivity. Qed.
+
+Example C02_example_uid_array :
+  abytes (AUidArr [[0; 17; 34; 51; 68; 85; 102; 119; 136; 153; 170; 187; 204; 221; 238; 255]]) =
+    CteEnc.s2b "@uid[00112233-4455-6677-8899-aabbccddeeff]"%string /\
+  cte_read (CteEnc.s2b "c1 @uid[00112233-4455-6677-8899-aabbccddeeff]"%string) =
+    Some (document [aevent (AUidArr [[0; 17; 34; 51; 68; 85; 102; 119; 136; 153; 170; 187; 204; 221; 238; 255]])]).
+Proof. vm_compute. split; reflexivity. Qed.
+
+Example C02_example_uid_values :
+  map (fun t => cte_read (CteEnc.s2b "c1 "%string ++ CteEnc.uid_text t)) 
+      [[18; 52; 86; 126; 18; 52; 86; 120; 154; 188; 222; 240; 1; 2; 3; 4]; [11; 17; 1; 1; 0; 0; 0; 0; 0; 0; 0; 0; 0; 0; 0; 0]] =
+  [Some (document [EUid [18; 52; 86; 126; 18; 52; 86; 120; 154; 188; 222; 240; 1; 2; 3; 4]]);
+   Some (document [EUid [11; 17; 1; 1; 0; 0; 0; 0; 0; 0; 0; 0; 0; 0; 0; 0]])] /\
+  CteEnc.uid_text [18; 52; 86; 126; 18; 52; 86; 120; 154; 188; 222; 240; 1; 2; 3; 4] = CteEnc.s2b "1234567e-1234-5678-9abc-def001020304"%string /\
+  CteEnc.uid_text [11; 17; 1; 1; 0; 0; 0; 0; 0; 0; 0; 0; 0; 0; 0; 0] = CteEnc.s2b "0b110101-0000-0000-0000-000000000000"%string.
+Proof. vm_compute. repeat split; reflexivity. Qed.
+
+Example C02_example_bit_array :
+  abytes (ABitArr [true; false; true; true; false; false; false; false; true; true]) = CteEnc.s2b "@b[1011000011]"%string /\
+  aevent (ABitArr [true; false; true; true; false; false; false; false; true; true]) = EArray AT_Bit 10 [13; 3].
+Proof. vm_compute. split; reflexivity. Qed.
 
 Example C02_example_string :
   utf8_valid [107; 195; 169; 10; 34; 226; 130; 172] = true /\
